@@ -155,6 +155,11 @@ impl HalState {
     pub fn fault(&mut self, kind: &str, detail: String) {
         self.faults.push((kind.to_string(), detail));
     }
+    /// Moves the next DMA device address forward by `pages` pages (so that allocations start at
+    /// addresses whose low page-frame bits are set).
+    pub fn skew_dma(&mut self, pages: u64) {
+        self.next_dma_paddr += pages * PAGE_SIZE as u64;
+    }
     pub fn live_dma(&self) -> impl Iterator<Item = &DmaEntry> {
         self.dma.iter().filter(|e| e.live)
     }
